@@ -46,15 +46,13 @@ impl StorageEngine {
 //@@ unit expire fn src/storage/engine.rs StorageEngine::expire
 //@@   params drop "db: DatabaseIndex" add "shard_guard: &mut DatabaseShard"
 //@@   rewrite R2
-//@@   rewrite R7 "Instant::now() + expires_in" verif_instant_add
     fn expire(&self, shard_guard: &mut DatabaseShard, key: &[u8], expires_in: Duration) -> (r: Result<bool>)
-        requires spec_now() + dur_nanos(expires_in) <= instant_max(),
         ensures
             step_ok(*old(shard_guard), *final(shard_guard), key_of(key@)),
             r == Ok::<bool, FerrousError>(old(shard_guard).data@.contains_key(key_of(key@))),
             old(shard_guard).data@.contains_key(key_of(key@)) ==> final(shard_guard).data@.contains_key(key_of(key@))
                 && final(shard_guard).data@[key_of(key@)].value == old(shard_guard).data@[key_of(key@)].value
-                && (final(shard_guard).data@[key_of(key@)].metadata.expires_at matches Some(d) && iv(d) == spec_now() + dur_nanos(expires_in)),
+                && (final(shard_guard).data@[key_of(key@)].metadata.expires_at matches Some(d) && iv(d) == sat_deadline(expires_in)),
             !old(shard_guard).data@.contains_key(key_of(key@)) ==> unchanged(*old(shard_guard), *final(shard_guard)),
 //@@ body
 //@@ end
@@ -95,13 +93,12 @@ impl StorageEngine {
 //@@   params drop "db: DatabaseIndex" add "shard_guard: &mut DatabaseShard"
 //@@   rewrite R2
     fn set_value(&self, shard_guard: &mut DatabaseShard, key: Key, value: Value, expires_in: Option<Duration>) -> (r: Result<()>)
-        requires expires_in matches Some(d) ==> spec_now() + dur_nanos(d) <= instant_max(),
         ensures
             step_ok(*old(shard_guard), *final(shard_guard), key),
             r is Err ==> unchanged(*old(shard_guard), *final(shard_guard)),
             r is Ok ==> final(shard_guard).data@.contains_key(key) && final(shard_guard).data@[key].value == value && marks(*final(shard_guard)).contains(key@)
                 && (expires_in is None ==> final(shard_guard).data@[key].metadata.expires_at is None)
-                && (expires_in matches Some(d) ==> (final(shard_guard).data@[key].metadata.expires_at matches Some(t) && iv(t) == spec_now() + dur_nanos(d))),
+                && (expires_in matches Some(d) ==> (final(shard_guard).data@[key].metadata.expires_at matches Some(t) && iv(t) == sat_deadline(d))),
 //@@ body
 //@@ end
 
@@ -123,15 +120,13 @@ impl StorageEngine {
 //@@ unit set_string_nx_ex fn src/storage/engine.rs StorageEngine::set_string_nx_ex
 //@@   params drop "db: DatabaseIndex" add "shard_guard: &mut DatabaseShard"
 //@@   rewrite R2
-//@@   rewrite R7 "Instant::now() + expires_in" verif_instant_add
     fn set_string_nx_ex(&self, shard_guard: &mut DatabaseShard, key: Key, value: Vec<u8>, expires_in: Duration) -> (r: Result<bool>)
-        requires spec_now() + dur_nanos(expires_in) <= instant_max(),
         ensures
             step_ok(*old(shard_guard), *final(shard_guard), key),
             old(shard_guard).data@.contains_key(key) && !expired(old(shard_guard).data@[key]) ==> r == Ok::<bool, FerrousError>(false) && unchanged(*old(shard_guard), *final(shard_guard)),
             r is Err ==> unchanged(*old(shard_guard), *final(shard_guard)),
             r == Ok::<bool, FerrousError>(true) ==> final(shard_guard).data@.contains_key(key) && final(shard_guard).data@[key].value == Value::String(value)
-                && (final(shard_guard).data@[key].metadata.expires_at matches Some(t) && iv(t) == spec_now() + dur_nanos(expires_in)),
+                && (final(shard_guard).data@[key].metadata.expires_at matches Some(t) && iv(t) == sat_deadline(expires_in)),
             r matches Ok(b) ==> b == !(old(shard_guard).data@.contains_key(key) && !expired(old(shard_guard).data@[key])),
 //@@ body
 //@@ end
